@@ -23,9 +23,10 @@ pub struct ProbeResult {
     pub note: String,
 }
 
-pub const ENTRIES: [&str; 10] = [
+pub const ENTRIES: [&str; 11] = [
     "decode", "decode_borrowed", "decode_with_atom_cache", "decode_with_trailing", "decode_raw_term", "decode_with_cache",
     "decode_fragment_header", "decode_fragment_cont", "Connection::decode_complete_fragment", "FragmentAssembler script",
+    "ControlMessage::from_term(decode) + as_integer of every element",
 ];
 
 /// Values a script byte selects for a fragment id / fragment count.
@@ -64,6 +65,15 @@ fn run_entry(entry: u8, data: &[u8]) -> bool {
         6 => decoder::decode_fragment_header(data).is_ok(),
         7 => decoder::decode_fragment_cont(data).is_ok(),
         9 => run_assembler_script(data),
+        10 => match erltf::decode(data) {
+            Ok(t) => {
+                // the conversions the receive paths apply to a decoded control term
+                if let erltf::OwnedTerm::Tuple(es) = &t { for e in es { let _ = e.as_integer(); } }
+                let _ = t.as_integer();
+                match edp_client::control::ControlMessage::from_term(&t) { Ok(m) => { let _ = m.to_term(); let _ = m.into_term(); true } Err(_) => false }
+            }
+            Err(_) => false,
+        },
         _ => { let mut c = decoder::AtomCache::new(); edp_client::Connection::decode_complete_fragment(data, &mut c).is_ok() }
     }
 }
@@ -97,13 +107,19 @@ pub fn child_main() -> i32 {
 
 /// Parent: run all inputs (entry, bytes) across `workers` children; deterministic result order.
 pub fn run_all(inputs: &[(u8, Vec<u8>)], workers: usize) -> Vec<ProbeResult> {
+    run_all_with(&std::env::current_exe().unwrap(), inputs, workers)
+}
+
+/// As `run_all`, with the children started from another build of this program (the unoptimised one, whose stack
+/// frames are the largest).
+pub fn run_all_with(exe: &std::path::Path, inputs: &[(u8, Vec<u8>)], workers: usize) -> Vec<ProbeResult> {
     let n = inputs.len();
     let chunk = n.div_ceil(workers.max(1)).max(1);
     let mut results: Vec<Option<ProbeResult>> = vec![None; n];
     std::thread::scope(|s| {
         let mut handles = vec![];
         for (w, slice) in inputs.chunks(chunk).enumerate() {
-            handles.push((w * chunk, s.spawn(move || run_shard(slice))));
+            handles.push((w * chunk, s.spawn(move || run_shard(exe, slice))));
         }
         for (base, h) in handles {
             for (i, r) in h.join().unwrap().into_iter().enumerate() {
@@ -114,12 +130,11 @@ pub fn run_all(inputs: &[(u8, Vec<u8>)], workers: usize) -> Vec<ProbeResult> {
     results.into_iter().map(|r| r.unwrap()).collect()
 }
 
-fn run_shard(inputs: &[(u8, Vec<u8>)]) -> Vec<ProbeResult> {
-    let exe = std::env::current_exe().unwrap();
+fn run_shard(exe: &std::path::Path, inputs: &[(u8, Vec<u8>)]) -> Vec<ProbeResult> {
     let mut out: Vec<ProbeResult> = Vec::with_capacity(inputs.len());
     let mut next = 0usize;
     while next < inputs.len() {
-        let mut child = Command::new(&exe).arg("probe").stdin(Stdio::piped()).stdout(Stdio::piped()).stderr(Stdio::piped())
+        let mut child = Command::new(exe).arg("probe").stdin(Stdio::piped()).stdout(Stdio::piped()).stderr(Stdio::piped())
             .env("RUST_BACKTRACE", "0").spawn().expect("spawn probe child");
         let mut cin = child.stdin.take().unwrap();
         let mut cout = child.stdout.take().unwrap();
